@@ -26,7 +26,7 @@ CHECKS = {
     },
     "C02": {
         "explanation": "Commit/Rollback steps from arbitrary states, rollback replay windows of <= 3 reads, package Range with a callback that stops/panics/forces a Commit failure at a symbolic index, Buffer.Range over <= 4 values.",
-        "quick": [seq("Harness_C02_commit_rollback_step"), seq("Harness_C02_rollback_replays"), seq("Harness_C02_range_pkg"), seq("Harness_C02_buffer_range"), sched("Harness_C02_get_atomic", 18)],
+        "quick": [seq("Harness_C02_commit_rollback_step"), seq("Harness_C02_rollback_replays"), seq("Harness_C02_range_pkg"), seq("Harness_C02_buffer_range"), seq("Harness_C02_buffer_range_put"), sched("Harness_C02_get_atomic", 18)],
         "thorough": [],
         "assumptions": ["representation invariant of verifArbitraryBuffer"],
     },
@@ -37,9 +37,10 @@ CHECKS = {
         "assumptions": ["at most 6 consumer offsets for the pure cleaner, <= 2 consumers and <= 4 values for cleanupLogic"],
     },
     "C05": {
-        "explanation": "The real WaitCond under every interleaving of waiter, its context watcher, a signaller that sets the flag under the lock and broadcasts, and a canceller (T=20); cancel-only wake-up; argument validation. Failed Get consumes nothing is covered by the Get step from arbitrary states.",
-        "quick": [seq("Harness_C05_waitcond_args"), sched("Harness_C05_waitcond_cancel_only", 16), sched("Harness_C05_waitcond_wake", 20), seq("Harness_C01_get_step")],
-        "thorough": [],
+        "explanation": "consumer.Get parked in its asynchronous path (real getAsync goroutine, WaitCond, CombineContext) racing a Put / a cancellation of the caller's context / a Buffer-side cancellation at an arbitrary point (T=30); the real WaitCond under every interleaving of waiter, its context watcher, a signaller that sets the flag under the lock and broadcasts, and a canceller (T=20); cancel-only wake-up; argument validation. Failed Get consumes nothing is covered by the Get step from arbitrary states.",
+        "quick": [seq("Harness_C05_waitcond_args"), sched("Harness_C05_waitcond_cancel_only", 16), sched("Harness_C05_waitcond_wake", 20), seq("Harness_C01_get_step"),
+                  sched("Harness_C05_get_wakes_put", 30, timeout_ms=400000), sched("Harness_C05_get_wakes_cancel", 30, timeout_ms=400000)],
+        "thorough": [sched("Harness_C05_get_wakes_close", 30, timeout_ms=400000)],
         "assumptions": ["sync.Cond / sync.Mutex / context models", "at most one signaller and one canceller"],
     },
     "C06": {
@@ -75,7 +76,7 @@ CHECKS = {
     "C12": {
         "explanation": "Closed-state calls on Buffer, consumer and Channel from arbitrary valid states (sequential); goroutine-leak / termination harnesses for Channel, WaitCond and CombineContext under every interleaving.",
         "quick": [seq("Harness_C12_buffer_closed_calls"), seq("Harness_C12_consumer_closed_calls"), seq("Harness_C12_channel_closed_calls"),
-                  sched("Harness_C12_leak_channel", 16), sched("Harness_C12_leak_waitcond", 12), sched("Harness_C12_leak_combine", 10)],
+                  sched("Harness_C12_leak_channel", 16), sched("Harness_C12_leak_waitcond", 12), sched("Harness_C12_leak_combine", 10), sched("Harness_C12_close_vs_diff", 16)],
         "thorough": [],
         "assumptions": ["whole-program leak freedom is argued by composition, not checked"],
     },
@@ -112,7 +113,7 @@ CHECKS = {
     },
     "C20": {
         "explanation": "LinearAttempt with count 2 (quick) and 3 (thorough): producer || receiver || optional canceller under every interleaving; ticker may tick at any time; the receiver is slower than the ticker at most twice (assumption).",
-        "quick": [seq("Harness_C20_linear_args"), sched("Harness_C20_linear_attempt_2", 26, timeout_ms=600000)],
+        "quick": [seq("Harness_C20_linear_args"), sched("Harness_C20_linear_attempt_2", 26, timeout_ms=600000), sched("Harness_C20_linear_attempt_deadline", 26, timeout_ms=600000), sched("Harness_C20_deadline_after_expiry", 30, timeout_ms=600000)],
         "thorough": [sched("Harness_C20_linear_attempt_3", 32, timeout_ms=900000)],
         "assumptions": ["fairness: at most 2 failed non-blocking sends in total", "time is an arbitrary non-decreasing clock"],
     },
@@ -126,7 +127,8 @@ CHECKS = {
     },
     "C04": {
         "explanation": "The real Buffer.cleanup goroutine (WaitCond loop, cooldown closure, timer goroutine) with a counting cleaner: a state change arriving at an arbitrary moment (also during the cooldown) is re-examined by the cleaner before quiescence, under every interleaving with the timer firing at an arbitrary moment (T=24); every mutator (Put, NewConsumer, commit, delete) wakes a waiter parked on the buffer's cond; one cleanupLogic step with FixedBufferCleaner(max, target<=max) leaves len <= max.",
-        "quick": [sched("Harness_C04_cleaner_recheck", 24), sched("Harness_C04_broadcast_on_change", 14), seq("Harness_C03_fixed_step")],
+        "quick": [sched("Harness_C04_cleaner_recheck", 26, timeout_ms=400000), sched("Harness_C04_broadcast_on_change", 14), seq("Harness_C03_fixed_step"),
+                  sched("Harness_C04_cleaner_protocol", 28, timeout_ms=400000), sched("Harness_C04_close_releases", 28, timeout_ms=400000)],
         "thorough": [],
         "assumptions": ["'bounded delay' is checked as quiescence (no reachable state where nothing can run and the change has not been re-examined)", "timer may fire at any moment after it is armed"],
     },
